@@ -19,26 +19,14 @@ import (
 var c18Ops = apiNames(nil)
 
 func genC18(r *Rand, sc *Scenario, tier string) {
+	if sc.Property == "C18" && (sc.Index/1024)%8 == 7 {
+		genC18Sweep(sc)
+		return
+	}
 	ntasks := r.Range(2, 6)
 	ndocs := r.Range(1, 4)
 	for i := 0; i < ndocs; i++ {
-		switch r.Pick(3, 4, 2, 3, 2, 1) {
-		case 0:
-			sc.Docs = append(sc.Docs, genDoc(r, "tiny"))
-		case 1:
-			sc.Docs = append(sc.Docs, genDoc(r, "small"))
-		case 2:
-			sc.Docs = append(sc.Docs, genDoc(r, "medium"))
-		case 3:
-			sc.Docs = append(sc.Docs, genStringTokenDoc(r))
-		case 4:
-			var b bytes.Buffer
-			b.WriteString([]string{"", " "}[r.Intn(2)])
-			genNumber(r, &b)
-			sc.Docs = append(sc.Docs, docOf(b.Bytes(), "number"))
-		case 5:
-			sc.Docs = append(sc.Docs, docOf(genContainerDoc(r, r.Chance(1, 2), memberCount(r), 500), "container"))
-		}
+		sc.Docs = append(sc.Docs, genC18Doc(r))
 	}
 	if r.Chance(1, 60) {
 		// every task recurses deep through the public traversal functions at the same time
@@ -77,6 +65,33 @@ func genC18(r *Rand, sc *Scenario, tier string) {
 			ops = append(ops, op)
 		}
 		sc.Tasks = append(sc.Tasks, ops)
+	}
+	if r.Chance(1, 6) {
+		// every task does exactly the same work (same operations, same documents, same handler
+		// decisions): they reach the same rare path - an error branch, a slow path, a first use -
+		// at the same moment
+		for t := 1; t < ntasks; t++ {
+			sc.Tasks[t] = append([]Op(nil), sc.Tasks[0]...)
+		}
+		sc.Cfg["identical-tasks"] = 1
+	}
+	if r.Chance(1, 4) {
+		// preemption-bounded schedule: 1-3 preemptions in all; a task is stopped after a number of
+		// yields that Exec derives from the sequential reference run (x mod the yields that task made),
+		// another task runs to completion in the gap, then the rest run one after another
+		for k := r.Range(1, 3); k > 0; k-- {
+			a := r.Intn(ntasks)
+			b := r.Intn(ntasks - 1)
+			if b >= a {
+				b++
+			}
+			sc.Sched = append(sc.Sched, a, r.Intn(1<<30), b)
+		}
+		sc.Cfg["single-preemption"] = 1
+		if r.Chance(1, 2) {
+			sc.Cfg["aim-at-shared-state"] = 1
+		}
+		return
 	}
 	// schedule: entries e >= 1: task selector in the high bits, quantum (yields to run) in the low byte
 	n := r.Range(0, 300)
@@ -124,7 +139,164 @@ func (ts *taskState) runTaskOp(op Op, docs [][]byte, yield func()) Outcome {
 		x.scratch = &ts.scratch
 	}
 	x.henv = nil
-	return runAPI(op.Kind, x, data)
+	out := runAPI(op.Kind, x, data)
+	if out.Err != nil {
+		// what the error says, read the way a caller does: right after the call returned
+		out.ErrText = errText(out.Err)
+	}
+	return out
+}
+
+func errText(err error) (s string) {
+	defer func() {
+		if r := recover(); r != nil {
+			s = fmt.Sprint("Error() panicked: ", r)
+		}
+	}()
+	return err.Error()
+}
+
+// genManyKeysDoc: objects with many distinct short field names drawn from a universe of a few
+// thousand, as one flat object or as an array of records that repeat their field names - the
+// workload of anything that interns, caches or hashes field names.
+func genManyKeysDoc(r *Rand) Doc {
+	universe := []int{64, 512, 4096}[r.Intn(3)]
+	var b bytes.Buffer
+	key := func() { fmt.Fprintf(&b, `"%s%d":`, []string{"f", "k", "id", ""}[r.Intn(4)], r.Intn(universe)) }
+	if r.Chance(1, 2) {
+		n := []int{10, 60, 300, 1200}[r.Pick(2, 3, 3, 1)]
+		b.WriteByte('{')
+		for i := 0; i < n; i++ {
+			if i > 0 {
+				b.WriteByte(',')
+			}
+			key()
+			fmt.Fprintf(&b, "%d", i)
+		}
+		b.WriteByte('}')
+		return docOf(b.Bytes(), "many-keys")
+	}
+	// records: the same names again and again
+	nf, nr := r.Range(2, 12), r.Range(2, 30)
+	names := make([]string, nf)
+	for i := range names {
+		names[i] = fmt.Sprintf("%s%d", []string{"f", "k", "id", "name"}[r.Intn(4)], r.Intn(universe))
+	}
+	b.WriteByte('[')
+	for j := 0; j < nr; j++ {
+		if j > 0 {
+			b.WriteByte(',')
+		}
+		b.WriteByte('{')
+		for i, nm := range names {
+			if i > 0 {
+				b.WriteByte(',')
+			}
+			fmt.Fprintf(&b, `"%s":%d`, nm, j*100+i)
+		}
+		b.WriteByte('}')
+	}
+	b.WriteByte(']')
+	return docOf(b.Bytes(), "records")
+}
+
+// genLongStringDoc: one string token whose length sits around a power of two (256 .. 64 Ki), plain
+// bytes first and the first escape late - the shape that takes the "large input" branch of
+// anything with a size threshold.
+func genLongStringDoc(r *Rand) Doc {
+	n := 1<<uint(r.Range(8, 16)) + []int{-2, -1, 0, 1, 7, 100}[r.Intn(6)]
+	fill := []string{"a", "ab", "é", "x "}[r.Intn(4)]
+	tail := []string{`\n`, `\u00e9`, `\"`, ``, `\ud83d\ude00`}[r.Intn(5)]
+	d := docRep("long-string", `"`, 1, fill, n/len(fill), tail+`tail"`, 1)
+	if r.Chance(1, 3) {
+		d = docRep("long-string", `["k",`, 1, `"`, 1, fill, n/len(fill), tail+`tail"`, 1, `]`, 1)
+	}
+	return d
+}
+
+func genC18Doc(r *Rand) Doc {
+	switch r.Pick(3, 4, 2, 3, 2, 1, 2, 1) {
+	case 0:
+		return genDoc(r, "tiny")
+	case 1:
+		return genDoc(r, "small")
+	case 2:
+		return genDoc(r, "medium")
+	case 3:
+		return genStringTokenDoc(r)
+	case 4:
+		var b bytes.Buffer
+		b.WriteString([]string{"", " "}[r.Intn(2)])
+		genNumber(r, &b)
+		return docOf(b.Bytes(), "number")
+	case 5:
+		return docOf(genContainerDoc(r, r.Chance(1, 2), memberCount(r), 500), "container")
+	case 6:
+		return genManyKeysDoc(r)
+	}
+	return genLongStringDoc(r)
+}
+
+// genC18Sweep: a block of 1024 consecutive scenario indices shares one small base scenario (two
+// tasks, one operation each) and differs only in where the single preemption lands: index offset
+// k preempts task k/512 after exactly k%512+1 yields, lets the other task run to completion, then
+// resumes. Every preemption point of both operations is visited once (operations of <= 512
+// yields): a bounded-exhaustive sweep inside the seeded search.
+func genC18Sweep(sc *Scenario) {
+	block, off := sc.Index/1024, sc.Index%1024
+	r := NewRand(runSeed(sc.Batch, "C18-sweep", block))
+	for t := 0; t < 2; t++ {
+		var d Doc
+		switch r.Pick(3, 3, 2, 2, 2) {
+		case 0:
+			d = genDoc(r, "tiny")
+		case 1:
+			d = docOf(genTreeBytes(r, r.Range(10, 80)), "small")
+		case 2:
+			d = genStringTokenDoc(r)
+			if d.Len() > 120 {
+				d = genDoc(r, "tiny")
+			}
+		case 3:
+			var b bytes.Buffer
+			genNumber(r, &b)
+			d = docOf(b.Bytes(), "number")
+			if d.Len() > 60 {
+				d = docOf([]byte("1.5e300"), "number")
+			}
+		case 4:
+			var b bytes.Buffer
+			fmt.Fprintf(&b, `{"f%d":1,"k%d":{"f%d":2},"f%d":3}`, r.Intn(4096), r.Intn(4096), r.Intn(4096), r.Intn(4096))
+			d = docOf(b.Bytes(), "many-keys")
+		}
+		if r.Chance(1, 5) {
+			// wide workloads: whatever a task does in the other's gap, it does a lot of it
+			d = genManyKeysDoc(r)
+		}
+		sc.Docs = append(sc.Docs, d)
+	}
+	same := c18Ops[r.Intn(len(c18Ops))]
+	for t := 0; t < 2; t++ {
+		name := same
+		if r.Chance(1, 3) {
+			name = c18Ops[r.Intn(len(c18Ops))]
+		}
+		op := Op{Kind: name, Doc: t, Doc2: 1 - t, A: r.Intn(2), B: r.Intn(41)}
+		if r.Chance(1, 3) {
+			op.Doc = 0 // both tasks on the same shared document
+		}
+		if name == "HandleArrayValues" || name == "HandleObjectValues" {
+			op.Tape = genC14Tape(r, r.Range(0, 8))
+		}
+		sc.Tasks = append(sc.Tasks, []Op{op})
+	}
+	a := off / 512
+	sc.Sched = []int{a, off % 512, 1 - a}
+	sc.Cfg["single-preemption"] = 1
+	sc.Cfg["sweep-block"] = block
+	if (block/8)%2 == 1 {
+		sc.Cfg["aim-at-shared-state"] = 1
+	}
 }
 
 func buildDocs(sc *Scenario) [][]byte {
@@ -187,9 +359,10 @@ func (c18b) Assumptions() []string {
 }
 func (c18b) Required(tier string) []string { return []string{"tasks-run-concurrently"} }
 func (c18b) Gen(r *Rand, sc *Scenario, tier string) {
+	sc.Property = "C18B"
 	genC18(r, sc, tier)
 	sc.Sched = nil
-	sc.Property = "C18B"
+	delete(sc.Cfg, "single-preemption")
 	if sc.Index%2 == 0 {
 		// every task runs the same entry point, cycling through the whole API by scenario index:
 		// the first scenario of each fresh worker process meets cold package state concurrently
